@@ -155,10 +155,20 @@ def inline_crate(j):
             continue
         stats['dropped'].append(name)
     # closures whose only use was a for_each that is now a loop: their body lives in the parent
+    cands = []
     for f in j['fns']:
-        for cname in f.pop('_inlined_closures', []):
+        cands.extend(f.pop('_inlined_closures', []))
+    changed = True
+    while changed:
+        changed = False
+        gone = set(stats['dropped'])
+        for cname in cands:
+            if cname in gone:
+                continue
             n_aggs = 0
             for f2 in j['fns']:
+                if f2['name'] in gone:
+                    continue
                 for b in f2['blocks']:
                     for st in b['stmts']:
                         rv = st.get('rv') or {}
@@ -166,7 +176,7 @@ def inline_crate(j):
                             n_aggs += 1
             if n_aggs <= 1:
                 stats['dropped'].append(cname)
-                # nested closures of the dropped closure stay (their aggregates were spliced into the parent)
+                changed = True
     if stats['dropped']:
         drop = set(stats['dropped'])
         j['fns'] = [f for f in j['fns'] if f['name'] not in drop]
